@@ -11,12 +11,29 @@ mod js_printer;
 mod loader;
 #[path = "@REPO@/crates/graphql-loader/src/tasks.rs"]
 mod tasks;
+#[path = "@REPO@/crates/graphql-loader/src/logger.rs"]
+mod logger;
+// the exported ABI wrappers (thread-local task table, last result): the real text of the binary crate's root
+mod abi_text {
+    // (a marker module so that a reader finds the place; the text itself has to sit at the crate root because it refers
+    // to `crate::logger` and to `loader::` / `tasks::` relative to the root)
+}
+//@inline-stripped @REPO@/crates/graphql-loader/src/main.rs
+
+fn main() {
+    vx::main()
+}
+
+/// everything below is the harness; it lives in a module of its own so that its imports and names cannot collide with
+/// the inlined text above
+mod vx {
+use super::*;
 
 use std::collections::{BTreeMap, BTreeSet};
 use std::path::PathBuf;
 
 use nitrogql_config_file::Config;
-use tasks::Tasks;
+use super::tasks::Tasks;
 
 const FILES: [(&str, &str); 4] = [
     ("/p/a.graphql", "#import F1 from \"./frags/f1.graphql\"\nquery A { x ...F1 }\n"),
@@ -190,14 +207,145 @@ fn run_history(h: &[Op], slack: bool) -> Result<(), String> {
     Ok(())
 }
 
-fn kind_of_failure(msg: &str) -> String {
-    // signature: the operation kind and which side said what, without ids and texts
-    let op = msg.split_whitespace().nth(2).unwrap_or("").split('(').next().unwrap_or("").to_string();
-    let what = if msg.contains("listed twice") { "a required file is listed twice" } else if msg.contains("answers Err") { "an error where the reference model has a result" } else if msg.contains("model Err") { "a result where the reference model has an error" } else { "a different result than the reference model" };
-    format!("{op}: {what}")
+// ------------------------------------------------------------------------------------------------ the exported ABI
+/// a string handed over the way the JavaScript glue does it: alloc_string(len), bytes written, the call, free_string
+fn with_abi_str<R>(s: &str, f: impl FnOnce(*const u8, usize) -> R) -> R {
+    let p = alloc_string(s.len());
+    unsafe { std::ptr::copy_nonoverlapping(s.as_ptr(), p, s.len()) };
+    let r = f(p as *const u8, s.len());
+    unsafe { free_string(p, s.len()) };
+    r
+}
+/// the last result as the glue reads it: get_result_ptr / get_result_size
+fn abi_result() -> Result<String, String> {
+    let (p, n) = (get_result_ptr(), get_result_size());
+    let bytes = unsafe { std::slice::from_raw_parts(p, n) };
+    String::from_utf8(bytes.to_vec()).map_err(|e| format!("the result buffer is not UTF-8: {e}"))
+}
+/// the same history through the exported calls, in a thread of its own (the task table and the last result are
+/// thread-local): return values and result buffers against the same reference model
+fn run_history_abi(h: &[Op]) -> Result<(), String> {
+    let mut model = Model { next: 1, tasks: BTreeMap::new() };
+    for (step, op) in h.iter().enumerate() {
+        let fail = |what: String| Err(format!("step {step} {op:?}: {what}"));
+        match *op {
+            Op::Initiate(f) | Op::InitiateBad(f) => {
+                let bad = matches!(op, Op::InitiateBad(_));
+                let src = if bad { "query { unterminated" } else { source_of(f) };
+                let id = with_abi_str(f, |fp, fl| with_abi_str(src, |sp, sl| initiate_task(fp, fl, sp, sl)));
+                if bad {
+                    if id != 0 {
+                        return fail(format!("initiate_task answers {id} for a root file that does not parse - reference model Err (0)"));
+                    }
+                    if abi_result()?.is_empty() {
+                        return fail("initiate_task failed but the result buffer holds no message".into());
+                    }
+                } else {
+                    if id == 0 {
+                        return fail("initiate_task answers Err (0) - reference model a task id".into());
+                    }
+                    if model.tasks.contains_key(&id) {
+                        return fail(format!("the new task got the id {id} of a live task"));
+                    }
+                    model.tasks.insert(id, (f.to_string(), [f.to_string()].into()));
+                }
+            }
+            Op::Required(t) => {
+                let ok = get_required_files(t);
+                match model.tasks.get(&t) {
+                    None => {
+                        if ok {
+                            return fail("get_required_files answers true - reference model Err".into());
+                        }
+                        if abi_result()?.is_empty() {
+                            return fail("get_required_files failed but the result buffer holds no message".into());
+                        }
+                    }
+                    Some((_, files)) => {
+                        if !ok {
+                            return fail("get_required_files answers Err (false) - reference model a list".into());
+                        }
+                        let text = abi_result()?;
+                        let listed: Vec<&str> = if text.is_empty() { vec![] } else { text.split('\n').collect() };
+                        let set: BTreeSet<String> = listed.iter().map(|x| x.to_string()).collect();
+                        if set.len() != listed.len() {
+                            return fail(format!("a required file is listed twice: {listed:?}"));
+                        }
+                        let want: BTreeSet<String> = files.iter().flat_map(|f| imports_of(f)).filter(|i| !files.contains(*i)).map(|i| i.to_string()).collect();
+                        if set != want {
+                            return fail(format!("the result buffer lists {set:?} - reference model {want:?}"));
+                        }
+                    }
+                }
+            }
+            Op::Load(t, f) | Op::LoadBad(t, f) => {
+                let bad = matches!(op, Op::LoadBad(..));
+                let src = if bad { "query { unterminated" } else { source_of(f) };
+                let ok = with_abi_str(f, |fp, fl| with_abi_str(src, |sp, sl| load_file(t, fp, fl, sp, sl)));
+                let want_ok = !bad && model.tasks.contains_key(&t);
+                if ok != want_ok {
+                    return fail(format!("load_file answers {ok} - reference model {want_ok}"));
+                }
+                if ok {
+                    model.tasks.get_mut(&t).unwrap().1.insert(f.to_string());
+                } else if abi_result()?.is_empty() {
+                    return fail("load_file failed but the result buffer holds no message".into());
+                }
+            }
+            Op::Emit(t) => {
+                let ok = emit_js(t);
+                match model.tasks.get(&t) {
+                    None => {
+                        if ok {
+                            return fail("emit_js answers true - reference model Err".into());
+                        }
+                    }
+                    Some((root, files)) => match fresh_emit(root, files, false) {
+                        Res::Js(js) => {
+                            if !ok {
+                                return fail("emit_js answers Err (false) - reference model a module".into());
+                            }
+                            if abi_result()? != js {
+                                return fail("the result buffer after emit_js differs from what a fresh task given the same files emits".into());
+                            }
+                        }
+                        _ => {
+                            if ok {
+                                return fail("emit_js answers true - a fresh task given the same files fails".into());
+                            }
+                        }
+                    },
+                }
+            }
+            Op::Free(t) => {
+                free_task(t);
+                model.tasks.remove(&t);
+            }
+        }
+    }
+    Ok(())
+}
+fn run_history_abi_thread(h: &[Op]) -> Result<(), String> {
+    let h2: Vec<Op> = h.to_vec();
+    match std::thread::spawn(move || run_history_abi(&h2)).join() {
+        Ok(r) => r.map_err(|e| format!("(exported ABI) {e}")),
+        Err(_) => Err("(exported ABI) step ? Abi(): an exported call panics".to_string()),
+    }
 }
 
-fn main() {
+fn kind_of_failure(msg: &str) -> String {
+    // signature: the operation kind and which side said what, without ids and texts
+    let (abi, msg) = match msg.strip_prefix("(exported ABI) ") {
+        Some(m) => ("exported ABI: ", m),
+        None => ("", msg),
+    };
+    let op = msg.split_whitespace().nth(2).unwrap_or("").split('(').next().unwrap_or("").to_string();
+    let what = if msg.contains("listed twice") { "a required file is listed twice" } else if msg.contains("answers Err") { "an error where the reference model has a result" } else if msg.contains("model Err") { "a result where the reference model has an error" } else { "a different result than the reference model" };
+    let what = if msg.contains("holds no message") { "a failed call leaves no message in the result buffer" } else if msg.contains("panics") { "an exported call panics" } else { what };
+    format!("{abi}{op}: {what}")
+}
+
+pub fn main() {
     let args: Vec<String> = std::env::args().collect();
     let mode = args.get(1).map(|s| s.as_str()).unwrap_or("native");
     if mode == "miri" {
@@ -216,6 +364,11 @@ fn main() {
             for h in &hs {
                 if let Err(e) = run_history(h, slack) {
                     println!("MISMATCH {h:?}: {e}");
+                }
+                if !slack {
+                    if let Err(e) = run_history_abi_thread(h) {
+                        println!("MISMATCH {h:?}: {e}");
+                    }
                 }
             }
         }
@@ -263,7 +416,7 @@ fn main() {
                 samples.push(format!("[#{i}] {h:?}"));
             }
             let slack = i % 2 == 1;
-            let r = std::panic::catch_unwind(|| run_history(&h, slack));
+            let r = std::panic::catch_unwind(|| run_history(&h, slack).and_then(|_| run_history_abi_thread(&h)));
             match r {
                 Ok(Ok(())) => {}
                 Ok(Err(e)) => failures.push((i, kind_of_failure(&e), format!("{h:?} (source buffers {} spare capacity)", if slack { "with" } else { "without" }), e, String::new())),
@@ -301,4 +454,6 @@ fn main() {
         sigs.iter().map(|(k, v)| format!("\"{}\":{}", esc(k), v)).collect::<Vec<_>>().join(","),
         shown.join(",")
     );
+}
+
 }
